@@ -300,12 +300,12 @@ struct VReq : public BusRequest {
   // no owning members: a (wrong) second destruction of a request must not crash the harness but be reported as an event
   int idx, kind, restartsLeft;
   int& status;  // 0 idle, 1 active (owned by handler), 2 completed (in finished queue), 3 deleted
-  int result; uint8_t slaveLen; uint8_t slaveBuf[40];
+  int result; int slaveLen; uint8_t slaveBuf[272];
   const MasterSymbolString& ms;
   VReq(int i, const ReqDef& d) : BusRequest(*g_masters[i], d.kind == 1), idx(i), kind(d.kind), restartsLeft(d.restarts), status(g_status[i]), result(0),
     slaveLen(0), ms(*g_masters[i]) { status = 0; }
   std::vector<uint8_t> slave() const { return std::vector<uint8_t>(slaveBuf, slaveBuf + slaveLen); }
-  void setSlave(const uint8_t* d, size_t n) { slaveLen = (uint8_t)std::min<size_t>(n, sizeof slaveBuf); memcpy(slaveBuf, d, slaveLen); }
+  void setSlave(const uint8_t* d, size_t n) { slaveLen = (int)std::min<size_t>(n, sizeof slaveBuf); memcpy(slaveBuf, d, slaveLen); }
   bool notify(result_t res, const SlaveSymbolString& sl) override {
     bool restart = kind == 2 && restartsLeft > 0 && res == RESULT_OK;  // like PollRequest/ScanRequest: next part only after success
     if (restart) restartsLeft--;
